@@ -1,16 +1,256 @@
 /-
 C17 — priority containers are faithful to their reference models for every history.
-Property theorems only (helper lemmas live in Asynkit/Lemmas).
+
+Property theorems only; helper lemmas are in Asynkit/Lemmas/{Heap,PQ,PosPQ}.lean.
+All statements are for an arbitrary priority type `π` whose `<` (`plt`) is a strict weak order
+("priorities of any type that only defines `<`") and for every heap library `H` that meets the
+documented `heapq` contract (`HeapLib.Lawful`).
 -/
-import Asynkit.Lemmas.Heap
-import Asynkit.Model.PQ
+import Asynkit.Lemmas.PQ
+import Asynkit.Model.PQStep
 
 namespace Asynkit.C17
+open Asynkit PQ
 
-/-- `ordereditems` restore, branch `lp >= lq` (merge without heapify) is sound. -/
+variable {π : Type} {H : HeapLib (Entry π)} {plt : π → π → Bool}
+
+/-! ## The reference model
+
+The specification state is the list of live entries **in arrival order**; the `seq` field of an
+entry is a ghost arrival stamp (strictly increasing along the list).  The specification knows
+nothing about heaps. -/
+
+/-- `e` is what the reference model pops from `L`: it is in `L`, no entry has a smaller priority,
+    and among the entries whose priority is not larger it arrived first. -/
+def IsFirst (plt : π → π → Bool) (L : List (Entry π)) (e : Entry π) : Prop :=
+  e ∈ L ∧ (∀ x ∈ L, plt x.pri e.pri = false) ∧ (∀ x ∈ L, plt e.pri x.pri = false → e.seq ≤ x.seq)
+
+/-- removing the entry with arrival stamp `n` (order of the others untouched) -/
+abbrev without (L : List (Entry π)) (n : Nat) : List (Entry π) := L.filter (fun y => y.seq != n)
+
+/-- `out` is the first `k` entries of the pop order of `L` (or all of them). -/
+def IsPopPrefix (plt : π → π → Bool) (L out : List (Entry π)) (k : Nat) : Prop :=
+  ∃ rest, (out ++ rest).Perm L ∧ Sorted (Entry.lt plt) out ∧
+    (∀ x ∈ out, ∀ y ∈ rest, Entry.lt plt y x = false) ∧ out.length = min k L.length
+
+/-- One step of the reference model (a relation: `remove`/`find`/`reschedule` of an object that
+    occurs several times may pick any occurrence). -/
+inductive SpecStep (plt : π → π → Bool) : List (Entry π) → Op π → Out π → List (Entry π) → Prop
+  | add (L p x n) : (∀ e ∈ L, e.seq < n) → SpecStep plt L (.add p x) .unit (L ++ [⟨p, n, x⟩])
+  | extend (L es n) : (∀ e ∈ L, e.seq < n) → SpecStep plt L (.extend es) .unit (L ++ mkEntries n es)
+  | popEmpty : SpecStep plt [] .pop .indexError []
+  | pop (L e) : IsFirst plt L e → SpecStep plt L .pop (.entry e) (without L e.seq)
+  | peekEmpty : SpecStep plt [] .peek .indexError []
+  | peek (L e) : IsFirst plt L e → SpecStep plt L .peek (.entry e) L
+  | removeAbsent (L x) : (∀ e ∈ L, e.obj ≠ x) → SpecStep plt L (.remove x) .valueError L
+  | remove (L x e) : e ∈ L → e.obj = x → SpecStep plt L (.remove x) (.entry e) (without L e.seq)
+  | findNone (L key rm) : (∀ e ∈ L, key e.obj = false) → SpecStep plt L (.find key rm) .none L
+  | find (L key e) : e ∈ L → key e.obj = true → SpecStep plt L (.find key false) (.entry e) L
+  | findRemove (L key e) : e ∈ L → key e.obj = true →
+      SpecStep plt L (.find key true) (.entry e) (without L e.seq)
+  | reschedNone (L key np) : (∀ e ∈ L, key e.obj = false) → SpecStep plt L (.reschedule key np) .none L
+  | reschedSame (L key np e) : e ∈ L → key e.obj = true → (plt e.pri np || plt np e.pri) = false →
+      SpecStep plt L (.reschedule key np) (.obj e.obj) L
+  | resched (L key np e) : e ∈ L → key e.obj = true →
+      SpecStep plt L (.reschedule key np) (.obj e.obj) (specResched L e.seq np)  -- arrival rank kept
+  | refresh (L) : SpecStep plt L .refresh .unit L
+  | sort (L) : SpecStep plt L .sort .unit L
+  | clear (L) : SpecStep plt L .clear .unit []
+  | ordered (L k out) : IsPopPrefix plt L out k → SpecStep plt L (.ordered k) (.entries out) L
+  | len (L) : SpecStep plt L .len (.nat L.length) L
+
+/-- a run of the reference model over a history from state `L`, with the answers it gives -/
+inductive SpecRun (plt : π → π → Bool) :
+    List (Entry π) → List (Op π) → List (Out π) → List (Entry π) → Prop
+  | nil (L) : SpecRun plt L [] [] L
+  | cons {L op out L1 ops outs L2} : SpecStep plt L op out L1 → SpecRun plt L1 ops outs L2 →
+      SpecRun plt L (op :: ops) (out :: outs) L2
+
+/-! ## Theorems -/
+
+/-- What "pop by ascending priority, arrival order breaking ties" means in terms of
+    `PriEntry.__lt__`: the `Entry.lt`-minimal entry is exactly the reference model's choice. -/
+theorem min_iff_isFirst {L : List (Entry π)} {e : Entry π} (he : e ∈ L) :
+    (∀ x ∈ L, Entry.lt plt x e = false) ↔ IsFirst plt L e := by
+  constructor
+  · intro h
+    refine ⟨he, fun x hx => ?_, fun x hx hex => ?_⟩
+    · have := h x hx
+      simp only [Entry.lt, Bool.or_eq_false_iff] at this
+      exact this.1
+    · have := h x hx
+      simp only [Entry.lt, Bool.or_eq_false_iff, Bool.and_eq_false_iff, Bool.not_eq_false',
+        decide_eq_false_iff_not] at this
+      rcases this.2 with h1 | h1
+      · rw [hex] at h1; cases h1
+      · omega
+  · intro ⟨_, h1, h2⟩ x hx
+    simp only [Entry.lt, Bool.or_eq_false_iff, Bool.and_eq_false_iff, Bool.not_eq_false',
+      decide_eq_false_iff_not]
+    refine ⟨h1 x hx, ?_⟩
+    cases hex : plt e.pri x.pri with
+    | true => left; rfl
+    | false => right; have := h2 x hx hex; omega
+
+/-- the reference model's choice is unique -/
+theorem isFirst_unique {L : List (Entry π)} (hinc : L.Pairwise (fun a b => a.seq < b.seq))
+    {e e' : Entry π} (h : IsFirst plt L e) (h' : IsFirst plt L e') : e = e' :=
+  min_unique hinc h.1 h'.1 ((min_iff_isFirst h.1).mpr h) ((min_iff_isFirst h'.1).mpr h')
+
+/-- **Single-step refinement**: from related states, every operation answers as the reference
+    model allows and leads to related states. -/
+theorem pq_step_refines (hs : StrictWeak plt) (hl : H.Lawful (Entry.lt plt))
+    {s : PQ π} {L : List (Entry π)} (h : R plt s L) (op : Op π) :
+    ∃ L', SpecStep plt L op (step H plt s op).2 L' ∧ R plt (step H plt s op).1 L' := by
+  cases op with
+  | add p x => exact ⟨_, .add L p x s.seq h.bound, h.add hl p x⟩
+  | extend es => exact ⟨_, .extend L es s.seq h.bound, h.extend hl es⟩
+  | pop =>
+    rcases h.pop hs hl with ⟨rfl, hn⟩ | ⟨e, s', hp, he, hmin, hr⟩
+    · exact ⟨[], by simp only [step, hn]; exact .popEmpty, by simpa only [step, hn] using h⟩
+    · refine ⟨_, ?_, by simpa only [step, hp] using hr⟩
+      simp only [step, hp]
+      exact .pop L e ((min_iff_isFirst he).mp hmin)
+  | peek =>
+    obtain ⟨seq, pq⟩ := s
+    cases pq with
+    | nil =>
+      have : L = [] := by simpa using h.perm.symm
+      subst this
+      exact ⟨[], by simp only [step, PQ.peek, List.head?_nil]; exact .peekEmpty, by simpa [step, PQ.peek] using h⟩
+    | cons a l =>
+      have he : a ∈ L := h.perm.subset (by simp)
+      have hmin : ∀ x ∈ L, Entry.lt plt x a = false := fun x hx =>
+        IsHeap.root_min_mem (entryLt_strictWeak hs) h.heap x (h.perm.symm.subset hx)
+      exact ⟨L, by simp only [step, PQ.peek, List.head?_cons]; exact .peek L a ((min_iff_isFirst he).mp hmin),
+        by simpa [step, PQ.peek] using h⟩
+  | remove x =>
+    have := h.remove hl x
+    cases hr : s.remove H plt x with
+    | none =>
+      rw [hr] at this
+      exact ⟨L, by simp only [step, hr]; exact .removeAbsent L x this, by simpa only [step, hr] using h⟩
+    | some r =>
+      obtain ⟨e, s'⟩ := r
+      rw [hr] at this
+      exact ⟨_, by simp only [step, hr]; exact .remove L x e this.1 this.2.1, by simpa only [step, hr] using this.2.2⟩
+  | find key rm =>
+    have := h.find hl key rm
+    cases hr : s.find H plt key rm with
+    | mk o s' =>
+      rw [hr] at this
+      cases o with
+      | none =>
+        obtain ⟨rfl, hk⟩ := this
+        exact ⟨L, by simp only [step, hr]; exact .findNone L key rm hk, by simpa only [step, hr] using h⟩
+      | some e =>
+        obtain ⟨he, hk, hrest⟩ := this
+        cases rm with
+        | false =>
+          simp only [Bool.false_eq_true, if_false] at hrest
+          subst hrest
+          exact ⟨L, by simp only [step, hr]; exact .find L key e he hk, by simpa only [step, hr] using h⟩
+        | true =>
+          simp only [if_true] at hrest
+          exact ⟨_, by simp only [step, hr]; exact .findRemove L key e he hk, by simpa only [step, hr] using hrest⟩
+  | reschedule key np =>
+    have := h.reschedule hl key np
+    cases hr : s.reschedule H plt key np with
+    | mk o s' =>
+      rw [hr] at this
+      cases o with
+      | none =>
+        obtain ⟨rfl, hk⟩ := this
+        exact ⟨L, by simp only [step, hr]; exact .reschedNone L key np hk, by simpa only [step, hr] using h⟩
+      | some x =>
+        obtain ⟨e, he, hk, rfl, hcase⟩ := this
+        rcases hcase with ⟨hsame, rfl⟩ | hr'
+        · exact ⟨L, by simp only [step, hr]; exact .reschedSame L key np e he hk hsame,
+            by simpa only [step, hr] using h⟩
+        · exact ⟨_, by simp only [step, hr]; exact .resched L key np e he hk,
+            by simpa only [step, hr] using hr'⟩
+  | refresh => exact ⟨L, .refresh L, h.refresh hl⟩
+  | sort => exact ⟨L, .sort L, h.sort hs⟩
+  | clear => exact ⟨[], .clear L, R.clear s⟩
+  | ordered k =>
+    have ho := h.ordered hs hl k
+    refine ⟨L, ?_, by simpa only [step] using ho.1⟩
+    simp only [step, ho.2]
+    refine .ordered L k _ ?_
+    have h0 : PopSplit (Entry.lt plt) s.pq [] s.pq := ⟨by simp, h.heap, by simp [Sorted], by simp⟩
+    have hsplit := popN_split hs hl k [] s.pq s.pq h0
+    have hlen := (popN_length hl k [] s.pq).1
+    exact ⟨_, hsplit.perm.trans h.perm, hsplit.sorted, hsplit.below,
+      by simpa [h.perm.length_eq] using hlen⟩
+  | len => exact ⟨L, by simp only [step, PQ.len, h.perm.length_eq]; exact .len L, by simpa only [step] using h⟩
+
+/-- refinement from any pair of related states -/
+theorem pq_refines_from (hs : StrictWeak plt) (hl : H.Lawful (Entry.lt plt)) (ops : List (Op π)) :
+    ∀ {s : PQ π} {L : List (Entry π)}, R plt s L →
+      ∃ L', SpecRun plt L ops (runFrom H plt s ops).2 L' ∧ R plt (runFrom H plt s ops).1 L' := by
+  induction ops with
+  | nil => intro s L h; exact ⟨L, .nil L, h⟩
+  | cons op ops ih =>
+    intro s L h
+    obtain ⟨L1, hstep, hr1⟩ := pq_step_refines (H := H) hs hl h op
+    obtain ⟨L2, hrun, hr2⟩ := ih hr1
+    exact ⟨L2, .cons hstep hrun, hr2⟩
+
+/-- **Refinement for every history** (`pq_refines_spec`): whatever sequence of operations is
+    applied to an empty `PriorityQueue`, the answers are answers of the reference model run on the
+    same history, and the final states are related (same entries, heap intact). -/
+theorem pq_refines_spec (hs : StrictWeak plt) (hl : H.Lawful (Entry.lt plt)) (ops : List (Op π)) :
+    ∃ L, SpecRun plt [] ops (run H plt ops).2 L ∧ R plt (run H plt ops).1 L :=
+  pq_refines_from hs hl ops R.empty
+
+/-- `pq_inv` + `pq_perm`: in every reachable state the heap invariant holds, sequence numbers are
+    distinct and below `_sequence`; nothing is lost or duplicated w.r.t. the reference model. -/
+theorem pq_inv (hs : StrictWeak plt) (hl : H.Lawful (Entry.lt plt)) (ops : List (Op π)) :
+    IsHeap (Entry.lt plt) (run H plt ops).1.pq ∧
+    ((run H plt ops).1.pq.map (·.seq)).Nodup ∧
+    ∀ e ∈ (run H plt ops).1.pq, e.seq < (run H plt ops).1.seq := by
+  obtain ⟨L, _, hr⟩ := pq_refines_spec (H := H) hs hl ops
+  exact ⟨hr.heap, (hr.perm.map _).nodup_iff.mpr (inc_seq_nodup hr.inc),
+    fun e he => hr.bound e (hr.perm.subset he)⟩
+
+/-- `iter_restore`: ordered iteration — started, advanced `k` times, closed — for all `k` and all
+    three restore branches leaves the queue related to the same reference state. -/
+theorem iter_restore (hs : StrictWeak plt) (hl : H.Lawful (Entry.lt plt)) {s : PQ π} {L}
+    (h : R plt s L) (k : Nat) : R plt (s.ordered H plt k).2 L :=
+  (h.ordered hs hl k).1
+
+/-- the no-heapify restore branch is sound because of this fact about lists -/
 theorem iter_restore_merge {α} (lt : α → α → Bool) (popped rest : List α)
     (hp : Sorted lt popped) (hc : ∀ x ∈ popped, ∀ y ∈ rest, lt y x = false)
     (hl : rest.length ≤ popped.length) : IsHeap lt (popped ++ rest) :=
   sorted_prefix_append_heap lt popped rest hp hc hl
+
+/-- `observe_pure`: `copy()` is the identity on values, and `sort`/`refresh`/ordered iteration keep
+    the reference state — so observing never changes what later operations answer. -/
+theorem observe_pure (hs : StrictWeak plt) (hl : H.Lawful (Entry.lt plt)) {s : PQ π} {L}
+    (h : R plt s L) (k : Nat) :
+    PQ.copy s = s ∧ R plt (s.sort plt) L ∧ R plt (s.refresh H plt) L ∧ R plt (s.ordered H plt k).2 L :=
+  ⟨rfl, h.sort hs, h.refresh hl, (h.ordered hs hl k).1⟩
+
+/-! ## Non-vacuity -/
+
+/-- the `heapq` contract is satisfiable (by a real, if slow, heap library) -/
+theorem lawful_satisfiable (hs : StrictWeak plt) : (sortedHeap (Entry π)).Lawful (Entry.lt plt) :=
+  sortedHeap_lawful (entryLt_strictWeak hs)
+
+/-- `<` on integers is a strict weak order, so all theorems apply to integer priorities -/
+theorem int_strictWeak : StrictWeak (fun a b : Int => decide (a < b)) :=
+  ⟨by simp, by intro a b; simp; omega, by intro a b c; simp; omega, by intro a b c; simp; omega⟩
+
+example : ∃ L, R (fun a b : Int => decide (a < b))
+    (run (sortedHeap _) (fun a b : Int => decide (a < b)) [.add 1 10, .add 0 11, .add 0 12, .pop]).1 L ∧
+    L.length = 2 := by
+  obtain ⟨L, hrun, hr⟩ := pq_refines_spec (H := sortedHeap _) int_strictWeak (lawful_satisfiable int_strictWeak)
+    [.add 1 10, .add 0 11, .add 0 12, .pop]
+  refine ⟨L, hr, ?_⟩
+  have := hr.perm.length_eq
+  have h2 : (run (sortedHeap _) (fun a b : Int => decide (a < b))
+      [.add 1 10, .add 0 11, .add 0 12, .pop]).1.pq.length = 2 := by decide
+  omega
 
 end Asynkit.C17
